@@ -3,5 +3,6 @@ CONSTANTS
   MaxVox = 6
   Seed = 2
 INVARIANT T_Covers
+INVARIANT T_Touching
 INVARIANT EmitC
 CHECK_DEADLOCK FALSE
